@@ -1,12 +1,14 @@
 """C01 — script functions mean the same eagerly, as a graph, and as Python."""
 import re
 
-MODULES = ["contracts.c01_analysis", "contracts.c01_converter", "contracts.c11_eager", "contracts.c01_operators", "contracts.c12_anylen:autocast"]
+MODULES = ["contracts.c01_analysis", "contracts.c01_converter", "contracts.c11_eager", "contracts.c01_operators", "contracts.c12_anylen:autocast",
+           # anchor: OnnxFunction._to_model_proto — called functions collected, opset imports merged (contract shared with C02)
+           "contracts.c02_modelproto:to_model_proto"]
 
 
 def INCLUDE(name):
     m = re.match(r"(C\d\d)\.", name)
-    return m is None or m.group(1) == "C01" or name.startswith("C11.eager")
+    return m is None or m.group(1) == "C01" or name.startswith("C11.eager") or name.startswith("C02.to_model_proto.")
 
 
 ANALYSIS_CORPUS = [
@@ -161,6 +163,9 @@ def replay(ob):
     name = ob["name"]
     if "constant_if.name_is_not_a_parameter" in name:
         return PARAM_SHADOWS_GLOBAL
+    if name.startswith("C02.to_model_proto."):
+        from props import C02
+        return C02.replay(ob)
     if name.startswith("cast_inputs.loop"):
         from props import C12
         return C12.PROMOTE_REPLAY
